@@ -5,7 +5,8 @@ import _e3
 from mirsmt import sym, models, check
 from mirsmt.sym import Ptr, Agg, Enum, Native, Fork, Diverge, UNIT, bv, Opaque
 
-ASSUME = ["run_transport is executed only up to its first poll, and drive_connection as a unit (one client, <= 2 calls): the mio event loop, accept/close/reset sequences, the per-client fan-out bookkeeping (client counting, drop-oldest), delivery and ordering need a running process and are outside this check",
+ASSUME = ["event loop: run_transport is executed from its entry over scripted poll() results (see props/c11_loop.py: what the models of mio, crossbeam-channel and prost assume; socket outcomes and frame lengths are the solver's); "
+          "more than 2 clients, more than 7 batches, client sockets becoming readable, and the emitting side (Handle::push_metric racing with should_send) are outside the bound",
           "drive_connection: frames are abstract byte ranges with symbolic lengths 1..2^20; a write accepts any prefix or fails with WouldBlock / Interrupted (<= 2 per history) / another error; no tracing subscriber (events and spans disabled)",
           "VecDeque::with_capacity(n) panics with 'capacity overflow' when n elements of the element type exceed isize::MAX bytes (documented std behaviour); mio/tracing calls are opaque",
           "size_of::<bytes::Bytes>() = 32"]
@@ -288,6 +289,12 @@ def run(tier, seed, t0):
             drive(e3, nc, nq, wr)
         except _e3.ENC_ERRORS as ex:
             e3.error(f"c11_drive_c{nc}_q{nq}", "MIR->SMT encoding of drive_connection", ex)
+    import c11_loop
+    for sc in c11_loop.LOOPS:
+        try:
+            c11_loop.analyse(e3, sc)
+        except _e3.ENC_ERRORS as ex:
+            e3.error(sc.name, "MIR->SMT encoding of run_transport's event loop", ex)
     finish("C11", tier, seed, list(e3.res.obligations), t0, ASSUME + ["E3 callee models: " + ", ".join(sorted(e3.models))], sorted(e3.functions),
            explanation="MIR->SMT encoding of the start-up path of the TCP exporter's transport thread over every buffer configuration")
 
